@@ -24,6 +24,9 @@ THEOREMS = [
     "ref_vs_inline_invariant", "attribute_group_factoring_invariant", "extension_prepends_base",
     "global_element_qualified_partial", "global_element_later_block_refuted",
     "local_form_partial", "mixed_element_form_default_refuted",
+    "model_is_denotation", "equal_denotation_equal_views", "group_wrapper_flat", "global_elements_by_the_rules",
+    "deref_sorted_is_resolution", "merge_any_order_when_targets_stable", "deref_wrong_order_refuted",
+    "wsdl_link_order_independent", "resolve_order_immaterial", "wrapped_rule",
 ]
 
 PRE_D = "From SV Require Import Lib.Base C07.DepSort."
@@ -767,8 +770,17 @@ def render(iface, plan):
         outparts = ""
         if op.out_type is not None:
             outparts = '<%spart name="parameters" element="%s"/>' % (W, wref(op.name + "Response"))
-        msgs.append('  <%smessage name="%sIn"%s>%s</%smessage>' % (W, op.name, here(), inparts, W))
-        msgs.append('  <%smessage name="%sOut"%s>%s</%smessage>' % (W, op.name, here(), outparts, W))
+        if op.style == "wrapped":
+            in_struct = [("parameters", op.name, None)]
+        elif op.style == "bare":
+            in_struct = [("p_" + g, g, None) for g, _ in op.parts]
+        else:
+            in_struct = [(pn, None, tr) for pn, tr in op.parts]
+        out_struct = [("parameters", op.name + "Response", None)] if op.out_type is not None else []
+        msgs.append((("msg", op.name + "In", in_struct),
+                     '  <%smessage name="%sIn"%s>%s</%smessage>' % (W, op.name, here(), inparts, W)))
+        msgs.append((("msg", op.name + "Out", out_struct),
+                     '  <%smessage name="%sOut"%s>%s</%smessage>' % (W, op.name, here(), outparts, W)))
         style = "rpc" if op.style == "rpc" else "document"
         if plan.decl_on_use:
             io = ['<%sinput xmlns:u_="%s" message="u_:%sIn"/>' % (W, tns, op.name),
@@ -776,16 +788,18 @@ def render(iface, plan):
         else:
             io = ['<%sinput message="%s"/>' % (W, wref(op.name + "In")),
                   '<%soutput message="%s"/>' % (W, wref(op.name + "Out"))]
-        pt.setdefault(style, []).append('    <%soperation name="%s">%s</%soperation>' % (W, op.name, "".join(io), W))
+        pt.setdefault(style, []).append((op.name, '    <%soperation name="%s">%s</%soperation>'
+                                         % (W, op.name, "".join(io), W)))
         if style == "rpc":
             body = '<%sbody use="literal" namespace="%s"/>' % (SP, S.namespaces[op.body_ns][0])
         else:
             body = '<%sbody use="literal"/>' % SP
-        bd.setdefault(style, []).append(
+        bd.setdefault(style, []).append((op.name,
             '    <%soperation name="%s"><%soperation soapAction="act_%s" style="%s"/>'
             '<%sinput>%s</%sinput><%soutput>%s</%soutput></%soperation>'
-            % (W, op.name, SP, op.name, style, W, body, W, W, body, W, W))
+            % (W, op.name, SP, op.name, style, W, body, W, W, body, W, W)))
     pieces = list(msgs)
+    port_struct = []
     for style in ("document", "rpc"):
         if style not in pt:
             continue
@@ -793,18 +807,24 @@ def render(iface, plan):
         if plan.wsdl_shuffle:
             prng.shuffle(ops_pt)
             prng.shuffle(ops_bd)
-        pieces.append('  <%sportType name="pt_%s"%s>\n%s\n  </%sportType>' % (W, style, here(), "\n".join(ops_pt), W))
-        pieces.append('  <%sbinding name="b_%s" type="%s"%s>\n'
-                      '    <%sbinding style="%s" transport="http://schemas.xmlsoap.org/soap/http"/>\n%s\n'
-                      '  </%sbinding>' % (W, style, wref("pt_" + style), here(), SP, style, "\n".join(ops_bd), W))
+        pieces.append((("pt", "pt_" + style, [(n, n + "In", n + "Out") for n, _ in ops_pt]),
+                       '  <%sportType name="pt_%s"%s>\n%s\n  </%sportType>'
+                       % (W, style, here(), "\n".join(t for _, t in ops_pt), W)))
+        pieces.append((("bd", "b_" + style, "pt_" + style, [n for n, _ in ops_bd]),
+                       '  <%sbinding name="b_%s" type="%s"%s>\n'
+                       '    <%sbinding style="%s" transport="http://schemas.xmlsoap.org/soap/http"/>\n%s\n'
+                       '  </%sbinding>' % (W, style, wref("pt_" + style), here(), SP, style,
+                                           "\n".join(t for _, t in ops_bd), W)))
+        port_struct.append(("port_" + style, "b_" + style))
         if plan.decl_on_use:
             ports.append('    <%sport name="port_%s" xmlns:u_="%s" binding="u_:b_%s"><%saddress '
                          'location="http://unused.invalid/%s"/></%sport>' % (W, style, tns, style, SP, style, W))
         else:
             ports.append('    <%sport name="port_%s" binding="%s"><%saddress location="http://unused.invalid/%s"/></%sport>'
                          % (W, style, wref("b_" + style), SP, style, W))
-    pieces.append('  <%sservice name="svc"%s>\n%s\n  </%sservice>' % (W, here(), "\n".join(ports), W))
-    types = "  <%stypes>\n%s\n  </%stypes>" % (W, "\n".join(texts), W)
+    pieces.append((("svc", "svc", port_struct),
+                   '  <%sservice name="svc"%s>\n%s\n  </%sservice>' % (W, here(), "\n".join(ports), W)))
+    types = (("types",), "  <%stypes>\n%s\n  </%stypes>" % (W, "\n".join(texts), W))
     if plan.wsdl_shuffle:
         pieces.append(types)
         prng.shuffle(pieces)
@@ -820,20 +840,154 @@ def render(iface, plan):
     if plan.wsdl_shuffle:
         prng.shuffle(rootdecl)
     text = ("<?xml version='1.0' encoding='UTF-8'?>\n<%sdefinitions targetNamespace=\"%s\" %s>\n%s\n</%sdefinitions>\n"
-            % (W, tns, "\n ".join(rootdecl), "\n".join(pieces), W))
-    return text.encode("utf-8"), blocks
+            % (W, tns, "\n ".join(rootdecl), "\n".join(t for _, t in pieces), W))
+    res = Rendered((text.encode("utf-8"), blocks))
+    res.children = [st for st, _ in pieces]          # the top-level WSDL children, document order
+    return res
+
+
+class Rendered(tuple):
+    """(wsdl bytes, schema blocks) + .children"""
+    pass
 
 
 # ---------------------------------------------------------------------------
 # what a client exposes, canonicalised
 # ---------------------------------------------------------------------------
 
-def load_client(wsdl):
+def load_client(wsdl, tap=None):
     from . import sudsutil as U
     try:
+        if tap is not None:
+            with tap:
+                return U.client_from_wsdl(wsdl, nosend=True), None
         return U.client_from_wsdl(wsdl, nosend=True), None
     except Exception as e:  # noqa
         return None, "%s: %s" % (type(e).__name__, str(e)[:200])
+
+
+# hand-written schemas in which a merge target has a dependency of its own (suds accepts them): the only
+# place where the ORDER of the merges decides the result
+CHAIN_SCHEMAS = [
+    ("group-chain", """
+  <xsd:group name="g2"><xsd:sequence><xsd:element name="a" type="xsd:string"/><xsd:element name="b" type="xsd:int"/></xsd:sequence></xsd:group>
+  <xsd:group name="g1" ref="tns:g2"/>
+  <xsd:group name="g0" ref="tns:g1"/>
+  <xsd:complexType name="T"><xsd:group ref="tns:g0"/></xsd:complexType>
+  <xsd:element name="Wrapper" type="tns:T"/>""", ["a", "b"]),
+    ("element-chain", """
+  <xsd:element name="e2" nillable="true"><xsd:complexType><xsd:sequence><xsd:element name="a" type="xsd:string"/></xsd:sequence></xsd:complexType></xsd:element>
+  <xsd:element name="e1" ref="tns:e2"/>
+  <xsd:complexType name="T"><xsd:sequence><xsd:element ref="tns:e1"/></xsd:sequence></xsd:complexType>
+  <xsd:element name="Wrapper" type="tns:T"/>""", ["e1"]),
+    ("attribute-group-chain", """
+  <xsd:attributeGroup name="ag2"><xsd:attribute name="x" type="xsd:string"/></xsd:attributeGroup>
+  <xsd:attributeGroup name="ag1" ref="tns:ag2"/>
+  <xsd:complexType name="T"><xsd:sequence><xsd:element name="a" type="xsd:string"/></xsd:sequence><xsd:attributeGroup ref="tns:ag1"/></xsd:complexType>
+  <xsd:element name="Wrapper" type="tns:T"/>""", ["a", "x"]),
+    ("later-declared-chain", """
+  <xsd:complexType name="T"><xsd:group ref="tns:g0"/></xsd:complexType>
+  <xsd:group name="g0" ref="tns:g1"/>
+  <xsd:group name="g1" ref="tns:g2"/>
+  <xsd:group name="g2"><xsd:choice><xsd:element name="a" type="xsd:string"/></xsd:choice></xsd:group>
+  <xsd:element name="Wrapper" type="tns:T"/>""", ["a"]),
+]
+
+
+class DerefTap(object):
+    """Records every Schema.dereference call made while a client is built: the
+    objects of `all` and their merge targets before the call, the dependencies
+    dict handed to dependency_sort, and the same objects after the call.  The
+    implementation is only wrapped (observed), never altered."""
+
+    CLS = {"Element": "ClsElement", "Group": "ClsGroup", "AttributeGroup": "ClsAttrGroup",
+           "Extension": "ClsExtension", "Restriction": "ClsRestriction"}
+
+    def __init__(self):
+        self.calls = []
+
+    def __enter__(self):
+        import suds.xsd.schema as SX
+        self.SX = SX
+        self.orig = SX.Schema.dereference
+        tap = self
+
+        def wrapper(schema):
+            try:
+                pre = tap.before(schema)
+            except Exception:  # noqa  (e.g. TypeNotFound from dependencies(): the original raises it again)
+                pre = None
+            tap.orig(schema)
+            if pre is not None:
+                objs, ids, keys, state, odd = pre
+                tap.calls.append({"keys": keys, "pre": state, "post": [tap.fields(o, ids, None) for o in objs],
+                                  "unmodelled": odd})
+        SX.Schema.dereference = wrapper
+        return self
+
+    def __exit__(self, *a):
+        self.SX.Schema.dereference = self.orig
+        return False
+
+    def fields(self, o, ids, objs):
+        def oid(c):
+            if id(c) not in ids:
+                ids[id(c)] = len(ids) + 1
+                if objs is not None:
+                    objs.append(c)
+            return ids[id(c)]
+        return (oid(o), self.CLS.get(type(o).__name__, "ClsOther"),
+                [None if getattr(o, n, None) is None else repr(getattr(o, n))
+                 for n in ("default", "max", "min", "name", "qname", "type")],
+                bool(o.nillable), [ids.setdefault(id(c), len(ids) + 1) for c in o.rawchildren])
+
+    def before(self, schema):
+        all_ = []
+        for child in schema.children:
+            child.content(all_)
+        ids, objs, keys, odd, seen = {}, [], [], False, set()
+        for x in all_:
+            if id(x) in seen:               # a dict key assigned twice keeps its first position
+                continue
+            seen.add(id(x))
+            ids[id(x)] = len(ids) + 1
+            objs.append(x)
+        targets = []
+        for x in list(objs):
+            x.qualify()
+            midx, deps = x.dependencies()
+            if (midx is None) != (len(deps) == 0) or midx not in (None, 0):
+                odd = True
+            for d in deps:
+                if id(d) not in ids:
+                    ids[id(d)] = len(ids) + 1
+                    targets.append(d)
+            keys.append((ids[id(x)], [ids[id(d)] for d in deps]))
+        objs = objs + targets
+        state = [self.fields(o, ids, None) for o in objs]
+        return objs, ids, keys, state, odd
+
+
+def store_case_lit(call):
+    intern = {}
+
+    def iv(v):
+        if v is None:
+            return "None"
+        return "(Some %d)" % intern.setdefault(v, len(intern) + 1)
+
+    def obj(f):
+        oid, cls, scal, nil, kids = f
+        return "(%d, mkO %s %s %s [%s])" % (oid, cls, " ".join(iv(v) for v in scal), cbool(nil),
+                                          "; ".join(str(k) for k in kids))
+
+    def st(fs):
+        return "[" + "; ".join(obj(f) for f in fs) + "]" if fs else "(@nil (N * sobj))"
+    graph = "[" + "; ".join("(%d, [%s])" % (k, "; ".join(str(d) for d in ds)) for k, ds in call["keys"]) + "]" \
+        if call["keys"] else "(@nil entry)"
+    return "(mkST %s %s %s)%%N" % (st(call["pre"]), graph, st(call["post"]))
+
+
 
 
 def type_id(iface, t):
@@ -916,6 +1070,9 @@ def gen_iface(rng):
     tb, tr = rng.choice(S.types), rng.choice(S.types)
     b1, b2 = rng.choice(F.BUILTINS), rng.choice(F.BUILTINS)
     ops.append(F.Op("bare0", "bare", parts=[("g1", ("n", tb.ns, tb.name)), ("g2", ("b", b1))]))
+    if rng.random() < 0.5:
+        # ONE part whose element has a builtin type: by set_wrapped's rule this is NOT a wrapped operation
+        ops.append(F.Op("bare1", "bare", parts=[("h1", ("b", rng.choice(F.BUILTINS)))]))
     ops.append(F.Op("rpc0", "rpc", parts=[("x", ("n", tr.ns, tr.name)), ("y", ("b", b2))],
                     body_ns=rng.randrange(len(S.namespaces))))
     return Iface(S, ops)
@@ -1203,10 +1360,106 @@ def schema_view_lits(iface, I, view):
 
 
 # ---------------------------------------------------------------------------
+# (6) WSDL linking: the children as written, and what Definitions links from them
+# ---------------------------------------------------------------------------
+
+def obs_wsdl(client):
+    """[(service, [(port, sorted [(op, in parts, in wrapped, out parts, out wrapped)])])] read from client.wsdl"""
+    out = []
+    for s in client.wsdl.services:
+        ports = []
+        for p in s.ports:
+            ops = []
+            for name, op in p.binding.operations.items():
+                bodies = []
+                for body in (op.soap.input.body, op.soap.output.body):
+                    bodies.append(([(pt.name, tuple(pt.element) if pt.element else None,
+                                     tuple(pt.type) if pt.type else None) for pt in body.parts], bool(body.wrapped)))
+                ops.append((name, bodies[0], bodies[1]))
+            ports.append((p.name, sorted(ops)))
+        out.append((s.name, ports))
+    return out
+
+
+def wsdl_case_lit(iface, children, impl, I):
+    from . import family as F
+    S = iface.S
+    tns_uri = S.namespaces[0][0]
+
+    def qn_uri(t):
+        """(local, uri) as suds stores a qref"""
+        return "(%s, %s)" % (cN(F.ns_to_id(S, t[1])), cN(I(t[0])))
+
+    def part_w(pn, el, tr):
+        e = "(Some (%s, %s))" % (cN(1), cN(I(el))) if el is not None else "None"
+        if tr is None:
+            t = "None"
+        elif tr[0] == "b":
+            t = "(Some (%s, %s))" % (cN(F.NS_XSD), cN(I(tr[1])))
+        else:
+            t = "(Some (%s, %s))" % (cN(tr[1] + 1), cN(I(tr[2])))
+        return "(mkPart %s %s %s)" % (cN(I(pn)), e, t)
+
+    def part_i(pt):
+        return "(mkPart %s %s %s)" % (cN(I(pt[0])), copt(qn_uri(pt[1]) if pt[1] else None, "qn"),
+                                     copt(qn_uri(pt[2]) if pt[2] else None, "qn"))
+
+    def ref(name):
+        return "(%s, %s)" % (cN(1), cN(I(name)))
+    ch = []
+    for c in children:
+        if c[0] == "types":
+            ch.append("WTypes")
+        elif c[0] == "msg":
+            ch.append("(WMessage %s %s)" % (cN(I(c[1])), clist([part_w(*x) for x in c[2]], "wpart")))
+        elif c[0] == "pt":
+            ch.append("(WPortType %s %s)" % (cN(I(c[1])), clist(
+                ["(mkPtOp %s (Some %s) (Some %s))" % (cN(I(n)), ref(i), ref(o)) for n, i, o in c[2]], "ptop")))
+        elif c[0] == "bd":
+            ch.append("(WBinding %s %s true %s)" % (cN(I(c[1])), ref(c[2]), clist([cN(I(n)) for n in c[3]], "N")))
+        else:
+            ch.append("(WService %s %s)" % (cN(I(c[1])), clist(["(%s, %s)" % (cN(I(pn)), ref(b)) for pn, b in c[2]],
+                                                               "N * qn")))
+    # the abstract operations: what WSDL 1.1 links for them
+    elems = []
+    ports = {"document": [], "rpc": []}
+    for op in iface.ops:
+        if op.style == "wrapped":
+            elems.append((op.name, False))
+            inp, inw = [part_w("parameters", op.name, None)], True
+        elif op.style == "bare":
+            for g, tr in op.parts:
+                elems.append((g, tr[0] == "b"))
+            inp = [part_w("p_" + g, g, None) for g, _ in op.parts]
+            inw = len(op.parts) == 1 and op.parts[0][1][0] != "b"
+        else:
+            inp, inw = [part_w(pn, None, tr) for pn, tr in op.parts], False
+        outp, outw = [], False
+        if op.out_type is not None:
+            elems.append((op.name + "Response", False))
+            outp, outw = [part_w("parameters", op.name + "Response", None)], True
+        ports["rpc" if op.style == "rpc" else "document"].append(
+            "(%s, (%s, %s), (%s, %s))" % (cN(I(op.name)), clist(inp, "wpart"), cbool(inw), clist(outp, "wpart"), cbool(outw)))
+    exp_ports = ["(%s, %s)" % (cN(I("port_" + st)), clist(ports[st], "lop")) for st in ("document", "rpc") if ports[st]]
+    expected = clist(["(%s, %s)" % (cN(I("svc")), clist(exp_ports, "lport"))], "lsvc")
+    if isinstance(impl, list):
+        il = "(LOk %s)" % clist(["(%s, %s)" % (cN(I(sn)), clist(
+            ["(%s, %s)" % (cN(I(pn)), clist(
+                ["(%s, (%s, %s), (%s, %s))" % (cN(I(n)), clist([part_i(x) for x in a[0]], "wpart"), cbool(a[1]),
+                                               clist([part_i(x) for x in b[0]], "wpart"), cbool(b[1]))
+                 for n, a, b in ops], "lop")) for pn, ops in ps], "lport")) for sn, ps in impl], "lsvc")
+    else:
+        il = "LError"
+    return "(mkWC %s %s %s %s %s)" % (cN(1), clist(ch, "wchild"),
+                                      clist(["((%s, %s), %s)" % (cN(1), cN(I(n)), cbool(b)) for n, b in elems], "qn * bool"),
+                                      expected, il)
+
+
+# ---------------------------------------------------------------------------
 # (3) the rendering-independence run
 # ---------------------------------------------------------------------------
 
-PRE_R = "From SV Require Import Lib.Base Fam.Schema C01.Marshal C01.Guard C01.Styles C07.Render C07.Concrete."
+PRE_R = "From SV Require Import Lib.Base Fam.Schema C01.Marshal C01.Guard C01.Styles C07.Render C07.Concrete C07.Denote C07.Store C07.Wsdl."
 
 KNOWN_A = "C07:split-block-global-element-not-top-level"
 KNOWN_B = "C07:xsi-prefix-bound-to-other-namespace"
@@ -1366,7 +1619,7 @@ def run_render(ck, unproved):
     n_ifaces = 36 if ck.tier == "quick" else 400
     K = 4 if ck.tier == "quick" else 6
     reps = 2 if ck.tier == "quick" else 4
-    W, B, R, PC, FC, EC, SC = [], [], [], [], [], [], []       # (coq case, meta)
+    W, B, R, PC, FC, EC, SC, ST, WL = [], [], [], [], [], [], [], [], []       # (coq case, meta)
     deviations = {}                                     # finding key -> first payload
     feature_count = {}
 
@@ -1388,18 +1641,26 @@ def run_render(ck, unproved):
         S = iface.S
         kept = set(t.name for t in S.types if (t.ns, t.name) not in iface.anonymizable)
         base = Plan(rng, iface, baseline=True)
-        wsdl0, blocks0 = render(iface, base)
-        c0, err = load_client(wsdl0)
+        r0 = render(iface, base)
+        wsdl0, blocks0 = r0
+        tap0 = DerefTap()
+        c0, err = load_client(wsdl0, tap0)
         if c0 is None:
             ck.failing_input("C07:baseline-load", "the plain rendering of a generated interface cannot be loaded: " + err,
                              {"part": "render", "wsdl": wsdl0.decode("utf-8"), "error": err})
             continue
         rend = [(base, wsdl0, c0, blocks0)]
+        wchildren = [r0.children]
+        taps = [(base, tap0)]
         for k in range(K):
             plan = Plan(rng, iface)
-            wsdl, blocks = render(iface, plan)
+            rk = render(iface, plan)
+            wsdl, blocks = rk
             U.expat_parse(wsdl)                  # the renderer must write well-formed documents
-            c, err = load_client(wsdl)
+            tap = DerefTap() if (k == 0 or ck.tier != "quick") else None
+            c, err = load_client(wsdl, tap)
+            if tap is not None and c is not None:
+                taps.append((plan, tap))
             for f in plan.features():
                 feature_count[f] = feature_count.get(f, 0) + 1
             if c is None:
@@ -1410,8 +1671,17 @@ def run_render(ck, unproved):
                 ck.seen(("load", si, k))
                 continue
             rend.append((plan, wsdl, c, blocks))
+            wchildren.append(rk.children)
         detail = {"baseline_wsdl": wsdl0.decode("utf-8")}
         last_by_j = []
+        # ---- every Schema.dereference call of the tapped loads: store before, dependencies dict, store after
+        for plan, tap in taps:
+            for call in tap.calls:
+                ST.append((store_case_lit(call), ("Schema.dereference", call["unmodelled"], si,
+                                                  sorted(plan.features()), len(call["keys"]))))
+                ck.seen(("deref", si, len(ST)), nontrivial=any(ds for _, ds in call["keys"]))
+                ck.count("dereference-calls")
+                ck.count("dereference-merges", sum(1 for _, ds in call["keys"] if ds))
 
         def observe_all(label, observe, input_=None):
             """-> list of observations (baseline first); deviating renderings are
@@ -1459,6 +1729,14 @@ def run_render(ck, unproved):
                        ("params " + op.name, keys if any(x != pls[0] for x in pls) else [], si)))
             ck.seen(("params", si, op.name))
             ck.count("parameter-lists")
+        # ---- WSDL linking: the children as written (any order) against what Definitions linked
+        links, keys = observe_all("wsdl-linking", obs_wsdl)
+        by_j = list(last_by_j)
+        for j in range(len(rend)):
+            I = F.new_interner()
+            WL.append((wsdl_case_lit(iface, wchildren[j], links[j], I), ("wsdl linking", by_j[j], si)))
+            ck.seen(("wsdl", si, j), nontrivial=rend[j][0].wsdl_shuffle)
+            ck.count("wsdl-link-views")
         # ---- the dereferenced schema objects, against the model run on the rendering as written
         views, keys = observe_all("schema-objects", lambda c: obs_schema(iface, c))
         by_j = list(last_by_j)
@@ -1468,7 +1746,7 @@ def run_render(ck, unproved):
             I = F.new_interner()
             tl, el = schema_view_lits(iface, I, views[j])
             SC.append(("(mkSC %s %s %s %s)" % (concrete_lit(iface, plan, blocks, I), AbsPrinter(iface, I).schema(), tl, el),
-                       ("schema objects", by_j[j], si)))
+                       ("schema objects", by_j[j], si, bool(plan.efd_flip))))
             ck.seen(("schema", si, j))
             ck.count("schema-object-views")
         # ---- factory objects of every type that keeps its name
@@ -1512,24 +1790,27 @@ def run_render(ck, unproved):
                     ck.seen(("w", si, op.name, rep), nontrivial=any(isinstance(v, (F.VObj, list)) for v in args))
                     ck.count("requests-wrapped")
                 elif op.style == "bare":
-                    (g1, tr1), (g2, tr2) = op.parts
-                    v1 = strip_anon(iface, F.gen_value(rng, S, F.Elem(g1, 0, True, tr1), depth=1))
-                    v2 = ("leaf",) + F.gen_leaf(rng, tr2[1])
+                    vals = []
+                    for g, tr in op.parts:
+                        if tr[0] == "b":
+                            vals.append(("leaf",) + F.gen_leaf(rng, tr[1]))
+                        else:
+                            vals.append(strip_anon(iface, F.gen_value(rng, S, F.Elem(g, 0, True, tr), depth=1)))
 
-                    def req(c, v1=v1, v2=v2, I=I, xstq=xstq):
+                    def req(c, vals=vals, I=I, xstq=xstq, op=op):
                         c.set_options(xstq=xstq)
-                        r = request(c, "port_document", "bare0", (F.to_python(c, S, v1), F.to_python(c, S, v2)), {})
+                        r = request(c, "port_document", op.name, tuple(F.to_python(c, S, v) for v in vals), {})
                         if r[0] == "ok":
                             return "(INodes %s)" % clist([F.node_to_coq(S, I, n) for n in r[1]], "xnode")
                         return "INTypeNotFound" if r[0] == "TypeNotFound" else "INOther"
-                    rs, keys = observe_all("request bare0", req, repr((v1, v2)))
-                    parts = clist(["(global_elem %s %s %s)" % (cN(I(g1)), cN(1), P.tref(tr1)),
-                                   "(global_elem %s %s TBuiltin)" % (cN(I(g2)), cN(1))], "edecl")
+                    rs, keys = observe_all("request " + op.name, req, repr(vals))
+                    parts = clist(["(global_elem %s %s %s)" % (cN(I(g)), cN(1), P.tref(tr) if tr[0] == "n" else "TBuiltin")
+                                   for g, tr in op.parts], "edecl")
                     B.append(("(mkRB %s %s %s %s %s)" % (P.schema(), cbool(xstq), parts,
-                                                          clist([P.value(v1), P.value(v2)], "value"),
+                                                          clist([P.value(v) for v in vals], "value"),
                                                           clist(rs, "impl_nodes")),
-                              ("request bare0", keys, si, repr((v1, v2)))))
-                    ck.seen(("b", si, rep))
+                              ("request " + op.name, keys, si, repr(vals))))
+                    ck.seen(("b", si, op.name, rep))
                     ck.count("requests-bare")
                 else:
                     (px, trx), (py, try_) = op.parts
@@ -1582,10 +1863,10 @@ def run_render(ck, unproved):
     for f, n in sorted(feature_count.items()):
         ck.count("renderings-with-" + f, n)
 
-    def judge(label, cases, ctype, spec_ok, agrees=None, shard=40, denot=None):
+    def judge(label, cases, ctype, spec_ok, agrees=None, shard=40, denot=None, extra=()):
         if not cases:
             return
-        preds = [spec_ok] + ([agrees] if agrees else []) + ([denot] if denot else [])
+        preds = [spec_ok] + ([agrees] if agrees else []) + ([denot] if denot else []) + list(extra)
         res = ck.run_cases(label, PRE_R, ctype, [c for c, _ in cases], preds, shard=shard)
         bad = set(res[spec_ok])
         for i in sorted(bad):
@@ -1619,6 +1900,7 @@ def run_render(ck, unproved):
             if off:
                 unproved.append({"correspondence": denot, "count": len(off),
                                  "first": {"observable": cases[off[0]][1][0], "case": cases[off[0]][0]}})
+        return res
 
     judge("wrapped", W, "rwcase", "render_wrapped_spec_ok", "render_wrapped_agrees")
     judge("bare", B, "rbcase", "render_bare_spec_ok", "render_bare_agrees")
@@ -1626,7 +1908,63 @@ def run_render(ck, unproved):
     judge("params", PC, "pcase", "params_spec_ok")
     judge("factory", FC, "fcase", "factory_spec_ok")
     judge("observed", EC, "ecase", "equal_spec_ok")
-    judge("schema", SC, "scase", "schema_spec_ok", "schema_agrees", denot="schema_model_is_denotation")
+    # the hand-written chains (a merge target with a dependency of its own)
+    for label, schema, members in CHAIN_SCHEMAS:
+        tap = DerefTap()
+        c, err = load_client(U.doc_wsdl(schema), tap)
+        got = None
+        if c is not None:
+            try:
+                t = c.wsdl.schema.types[("T", "my-namespace")]
+                got = [x.name for x, _ in t.children()] + [x.name for x, _ in t.attributes()]
+            except Exception as e:  # noqa
+                got = repr(e)
+        if got != members:
+            ck.failing_input("C07:dereference-merge",
+                             "type T of the %s schema has members %r instead of %r"
+                             % (label, got if got is not None else err, members),
+                             {"part": "store", "schema": schema, "members": repr(got or err)})
+        for call in tap.calls:
+            ST.append((store_case_lit(call), ("Schema.dereference " + label, call["unmodelled"], -1, [label],
+                                              len(call["keys"]))))
+            ck.seen(("deref-chain", label), nontrivial=True)
+            ck.count("dereference-calls-on-chains")
+    judge("wsdl", WL, "wcase", "wsdl_link_spec_ok", "wsdl_link_agrees", shard=60)
+    if ST:
+        r = ck.run_cases("store", "From SV Require Import Lib.Base C07.DepSort C07.Store.", "stcase",
+                         [c for c, _ in ST], ["store_deref_agrees", "store_deref_spec_ok", "store_in_guard"], shard=25)
+        bad = set(r["store_deref_spec_ok"])
+        for i in sorted(bad)[:2]:
+            ck.failing_input("C07:dereference-merge",
+                             "after Schema.dereference some reference does not carry what it refers to "
+                             "(children, name/type/default/occurrence, nillable)",
+                             {"part": "store", "case": ST[i][0], "rendering_features": ST[i][1][3]})
+        dis = [i for i in r["store_deref_agrees"] if i not in bad]
+        if dis:
+            unproved.append({"correspondence": "store_deref_agrees", "count": len(dis), "first": {"case": ST[dis[0]][0]}})
+        odd = [i for i, (_, m) in enumerate(ST) if m[1]]
+        if odd or r["store_in_guard"]:
+            unproved.append({"correspondence": "store_in_guard / dependencies() shape",
+                             "count": len(odd) + len(r["store_in_guard"]),
+                             "first": {"case": ST[(odd or r["store_in_guard"])[0]][0]}})
+        ck.extra["dereference_calls_inside_theorem_guard"] = len(ST) - len(r["store_in_guard"])
+    res = judge("schema", SC, "scase", "schema_spec_ok", "schema_agrees", denot="schema_model_is_denotation",
+                extra=("schema_in_guard", "schema_theorem_instance"))
+    if res:
+        # renderings outside the guard of model_is_denotation must be exactly the ones written with
+        # differing elementFormDefault; the theorem's instance must hold on every rendering
+        outside = set(res["schema_in_guard"])
+        ck.extra["renderings_inside_theorem_guard"] = len(SC) - len(outside)
+        ck.extra["renderings_outside_theorem_guard"] = len(outside)
+        wrong = [i for i in outside if not SC[i][1][3]]
+        if wrong:
+            unproved.append({"correspondence": "schema_in_guard", "count": len(wrong),
+                             "first": {"observable": "a rendering without mixed elementFormDefault is outside the "
+                                       "guard of model_is_denotation", "case": SC[wrong[0]][0]}})
+        if res["schema_theorem_instance"]:
+            i = res["schema_theorem_instance"][0]
+            unproved.append({"correspondence": "schema_theorem_instance", "count": len(res["schema_theorem_instance"]),
+                             "first": {"case": SC[i][0]}})
 
 
 # ---------------------------------------------------------------------------
@@ -1644,12 +1982,16 @@ def run(ck):
     ck.notes = [
         "modelled statement by statement: depsort.dependency_sort/_sort_r (fuel + sufficiency theorem); xsd.qualify, "
         "sax.splitPrefix, Element.resolvePrefix/defaultNamespace, SchemaObject.qualify, the wsdl reference callers",
-        "modelled as the view sxbase.Iter gives of the dereferenced object graph (by name lookup, not by replaying "
-        "the in-place merges): SchemaCollection.add, Factory.collate, Element.__init__ form rule incl. the two block "
+        "modelled statement by statement as well: Schema.dereference (the dependencies dict, dependency_sort, "
+        "x.merge(d) per class over a store of schema objects; every real dereference call of the tapped loads is "
+        "replayed in Coq: store_deref_agrees / store_deref_spec_ok) and wsdl.Definitions linking (add_children "
+        "dicts, children.sort, PortType/Binding/Service.do_resolve, set_wrapped: wsdl_link_agrees / "
+        "wsdl_link_spec_ok on every rendering, children permuted)",
+        "modelled as the view sxbase.Iter gives of the dereferenced object graph (by name lookup; proved equal to "
+        "the flattened denotation inside the guard, model_is_denotation): SchemaCollection.add, Factory.collate, Element.__init__ form rule incl. the two block "
         "quirks, Element/Group/AttributeGroup/Extension.merge; compared with suds' own schema objects for every "
         "rendering (schema_agrees) and with the abstract interface (schema_spec_ok)",
-        "covered by correspondence only: wsdl.Definitions linking (messages/portTypes/bindings/services, children "
-        "order, set_wrapped), anonymous types, the marshaller (C01's model and reference are re-used on every "
+        "covered by correspondence only: anonymous types, the marshaller (C01's model and reference are re-used on every "
         "rendering), factory objects (top-level keys by rule, the rest pairwise), decoded replies (pairwise)",
         "renderings are produced by this file's own renderer; what may vary: prefix spellings (definitions-level and "
         "per-block respellings incl. shadowing), default namespace (XSD, WSDL, own target namespace), order of "
@@ -1684,7 +2026,10 @@ def run(ck):
                "by expat; (3) generated abstract interfaces of the shared family x 1 plain + K random renderings each "
                "(K=4 quick, 6 thorough): all clients compared on service definition, parameter definitions, factory "
                "objects of every type that keeps its name, requests (wrapped per type, bare, rpc/literal) for generated "
-               "argument trees, decoded injected replies, and the dereferenced schema objects; distinct = (interface, "
+               "argument trees, decoded injected replies, the dereferenced schema objects, the linked WSDL (ports/operations/parts/"
+               "wrapped flags) and, for the plain and the first random rendering [thorough: all], every "
+               "Schema.dereference call (store before, dependencies dict, store after); plus four hand-written schemas "
+               "with chains of references; distinct = (interface, "
                "observable, repetition); non-trivial = more than one key (1), a prefixed reference or a default "
                "namespace in scope (2), an object/list argument or any non-request observable (3)")
     if proof_ok is False:
